@@ -42,7 +42,7 @@ func genFmtNeg(r *hx.Rand) *fmtNegCase {
 			h = k.Accept // fills the per-request cache with the header Format will ask about
 		}
 		o, gok := genOffers(r, kind)
-		k.Pre = append(k.Pre, negCall{kind, h, o, gh && gok})
+		k.Pre = append(k.Pre, negCall{kind, h, o, gh && gok, 0})
 	}
 	return k
 }
